@@ -28,6 +28,9 @@ class Pair:
         self.upper_neighbors = upper  #: The directly implied concepts.
         self.lower_neighbors = lower  #: The directly subsumed concepts.
  
+    def __reduce__(self):
+        return operator.getitem, (self.lattice, self.index)
+
     def _eq(self, other):
         if not isinstance(other, Concept):
             return NotImplemented
